@@ -6,9 +6,6 @@ Driver handler for C15 (no temporary files left behind).
 namespace BV.Driver
 open BV
 
-/-- an optional trailing token -/
-def opt' {α : Type} (p : Parser α) : Parser (Option α) := fun s => match p s with | some (a, r) => some (some a, r) | none => some (none, s)
-
 def handleC15 (inp obs : List String) : Verdict :=
   let parsed := (do
     let tmp ← nat; let n ← nat; let c ← nat; let comp ← opt nat
@@ -27,7 +24,7 @@ def handleC15 (inp obs : List String) : Verdict :=
     let chunksAtObs := obsAt / cm
     let classes :=
       [s!"tmpdir-{if tmp == 1 then "explicit" else "default"}", s!"drop-{if order == 0 then "iterator-first" else "sorter-first"}"] ++
-      (match fail with | 0 => ["no-failure"] | 1 => ["panic-in-input"] | 2 => ["panic-in-comparator"] | _ => ["sort-returns-error"]) ++
+      (match fail with | 0 => ["no-failure"] | 1 => ["panic-in-input"] | 2 => ["panic-in-comparator"] | 4 => ["build-fails"] | _ => ["sort-returns-error"]) ++
       (if fail == 0 then (if consume ≥ n then ["drained"] else if consume == 0 then ["never-consumed"] else ["dropped-after-k"]) else []) ++
       (if comp.isSome then ["compressed"] else []) ++
       (match ((do let _ ← rep tok 10; let _ ← (if comp.isSome then tok else pure ""); let h ← nat; pure h).run inp) with
@@ -47,8 +44,10 @@ def handleC15 (inp obs : List String) : Verdict :=
         else if taken && top > 1 then some s!"during the sort {top} new entries exist directly under the configured directory"
         else none
       match specFail with
-      | some d => { kind := "specfail", nontrivial, classes, detail := d }
+      | some d => { kind := "specfail", nontrivial := nontrivial || fail == 4, classes, detail := d }
       | none =>
+        -- a build() that failed (or whose sorter was dropped unused): only the listings are compared
+        if fail == 4 then { kind := "ok", nontrivial := result == 4, classes } else
         -- model: events up to the observation point, then to the end
         let during := FS.run ([.beginSort] ++ List.replicate chunksAtObs .createChunk)
         let total := (n + cm - 1) / cm
